@@ -226,6 +226,16 @@ impl<'a> Gen<'a> {
 				for s in pool.into_iter().take(n) {
 					syms.push(s.to_owned());
 				}
+				// now and then an enum whose indices need a second varint byte (zigzag: from 64 on) or sit at that edge
+				// (not under Miri: interpreting the handling of 200 symbols costs it seconds per schema)
+				if !cfg!(miri) && self.rng.chance(1, 12) {
+					let total = *self.rng.pick(&[63usize, 64, 65, 100, 128, 129, 200]);
+					let mut k = 0;
+					while syms.len() < total {
+						syms.push(format!("G{k}"));
+						k += 1;
+					}
+				}
 				let l = self.inert_logical();
 				let id = self.push(Kind::Enum { name, symbols: syms }, l);
 				self.finish(id, enclosing);
